@@ -235,6 +235,8 @@ func init() {
 		"math.Float64frombits": ident,
 		// ---- runtime odds and ends
 		"runtime.KeepAlive":     noop,
+		"internal/abi.NoEscape": ident,
+		"internal/abi.Escape":   ident,
 		"runtime.Gosched":       func(w *Worker, fr *frame, a []Value) (Value, bool) { if len(w.gs) > 1 { w.idleYields = 0; w.yield("Gosched") }; return nil, true },
 		"runtime.SetFinalizer":  noop,
 		"internal/race.Enable":  noop,
@@ -289,6 +291,7 @@ func init() {
 			w.stub("time.Sleep (no-op)")
 			return nil, true
 		},
+		"(time.Time).Add": timeAddSym,
 		"time.runtimeNano": func(w *Worker, fr *frame, a []Value) (Value, bool) { return mkInt(64, 0), true },
 		// ---- net (concrete only)
 		"(net.IP).String": func(w *Worker, fr *frame, a []Value) (Value, bool) {
@@ -481,6 +484,14 @@ func timeNow(w *Worker, fr *frame, args []Value) (Value, bool) {
 		w.stub("time.Now (fixed instant)")
 		return Struct{mkInt(64, 0), mkInt(64, 63871286400+int64u(w.clockTick())), (*Value)(nil)}, true
 	}
+	if w.E.Cfg.ClockMode == "frozen" {
+		// the clock stands still; harnesses move time by shifting deadlines
+		// (time-translation invariance: the code under test only uses Now, Add,
+		// Sub, Before, After)
+		w.stub("time.Now (frozen monotonic clock; virtual time moves by shifting deadlines)")
+		wall := wallHasMonotonic | (uint64(1<<32) << 30)
+		return Struct{mkInt(64, wall), mkInt(64, 1<<40), (*Value)(nil)}, true
+	}
 	w.stub("time.Now (fresh symbolic instant, non-decreasing)")
 	w.clockN++
 	v := w.P.Var(fmt.Sprintf("now#%d", w.clockN), 64)
@@ -504,6 +515,27 @@ func timeNow(w *Worker, fr *frame, args []Value) (Value, bool) {
 		return Struct{mkInt(64, 0), Int{W: 64, T: ext}, (*Value)(nil)}, true
 	}
 	panic(pathAbort{"engine", "unknown clock mode " + w.E.Cfg.ClockMode})
+}
+
+// timeAddSym models Time.Add for a SYMBOLIC duration on a Time that carries a
+// monotonic reading: the reading moves by d (the real code additionally splits
+// d into seconds and nanoseconds with 64-bit division by 1e9, a known solver
+// stall; comparisons and Sub between such times only use the reading).
+// Concrete durations run the real code.
+func timeAddSym(w *Worker, fr *frame, args []Value) (Value, bool) {
+	d := args[1].(Int)
+	if d.T == nil {
+		return nil, false
+	}
+	t := args[0].(Struct)
+	wall := t[0].(Int)
+	if wall.T != nil || wall.C&wallHasMonotonic == 0 {
+		panic(pathAbort{"engine", "Time.Add with a symbolic duration on a time without monotonic reading"})
+	}
+	w.stub("time.Time.Add with symbolic duration (moves the monotonic reading; wall seconds left unchanged)")
+	ext := t[1].(Int)
+	ne := w.P.Bin(OpAdd, w.intTerm(ext), d.T)
+	return Struct{wall, w.mkIntT(64, ne), t[2]}, true
 }
 
 func int64u(i int64) uint64 { return uint64(i) }
